@@ -190,6 +190,15 @@ def permute(rng, cx, level):
     return out
 
 
+def mirror(cx, axis=2):
+    """the mirror image through a coordinate plane (the best orthogonal map back is a reflection: exercises the
+    determinant correction of the superposition kernels)"""
+    out = cx.copy()
+    for r in out.residues:
+        r['atoms'] = [(n, e, tuple((-v if k == axis else v) for k, v in enumerate(xyz))) for (n, e, xyz) in r['atoms']]
+    return out
+
+
 def renumber(cx, delta):
     out = cx.copy()
     for r in out.residues:
